@@ -44,7 +44,8 @@ def showBal (l : Led) : String :=
 /-- `fresh = true` is the specification: every proposal is answered by a freshly created instance -/
 def step (fresh : Bool) (s : S) : List String → S × String
   | ["reset"] => (init, "ok")
-  | ["tracing", _] => (s, "ok")     -- a collector endpoint in the configuration: no effect on results
+  | ["tracing", _] => (s, "ok")
+  | ["rerobot"] => (s, "ok")        -- the robot's certificate rotated by a re-initialisation: no effect on results     -- a collector endpoint in the configuration: no effect on results
   | ["bal"] => (s, showBal s.led)
   | ["trace", _] => (s, "ok")
   -- a nonce ahead of the simulating machine's clock by `d` ms: accepted or refused by the sender's
